@@ -293,7 +293,7 @@ fn structured_histories(ctx: &Ctx, b: &Built, layout: &Layout, rng: &mut Rng, ma
 }
 
 pub fn run(ctx: &Ctx) -> i32 {
-    let sizes = Sizes { random: (500, 20_000), deep: (900, 30_000), level0_only: false, max_levels: 16, budget: 50_000 };
+    let sizes = Sizes { random: (1200, 20_000), deep: (2000, 30_000), level0_only: false, max_levels: 16, budget: 50_000 };
     let hist_per_file = ctx.tier.pick(3, 6);
     let hist_len = ctx.tier.pick(150, 400);
     let states: Mutex<HashSet<u64>> = Mutex::new(HashSet::new());
